@@ -509,7 +509,7 @@ func GenerateSeqs(rng *common.Rng, extra int) []SeqCase {
 		for k := 1; k < ncall; k++ {
 			ms = append(ms, pass|os[rng.Intn(len(os))])
 		}
-		run(genSeq(d, rng.Split(), 5000+i, ms, self))
+		run(genSeq(d, rng.Split(), 1000+i, ms, self))
 	}
 	return out
 }
